@@ -352,7 +352,9 @@ func c18Run(c *engine.Ctx) {
 	refuse("type-differs-from-typeless", good, side{"*Object(type-less)", obj(base, "")}, true)
 	refuse("type-differs-case", good, side{"*Object(note)", obj(base, "note")}, true)
 	unsupported := []side{
-		{"*Activity(Like)", func() ap.Item { return &ap.Activity{ID: ap.IRI(base), Type: ap.LikeType, Summary: ap.NaturalLanguageValues{{Ref: "-", Value: ap.Content("keep")}}} }},
+		{"*Activity(Like)", func() ap.Item {
+			return &ap.Activity{ID: ap.IRI(base), Type: ap.LikeType, Summary: ap.NaturalLanguageValues{{Ref: "-", Value: ap.Content("keep")}}}
+		}},
 		{"*IntransitiveActivity(Arrive)", func() ap.Item { return &ap.IntransitiveActivity{ID: ap.IRI(base), Type: ap.ArriveType} }},
 		{"*Question", func() ap.Item { return &ap.Question{ID: ap.IRI(base), Type: ap.QuestionType} }},
 		{"*Link", func() ap.Item { return &ap.Link{ID: ap.IRI(base), Type: ap.LinkType, Href: "https://example.com/h"} }},
@@ -366,10 +368,16 @@ func c18Run(c *engine.Ctx) {
 		label    string
 		to, from side
 	}{
-		{"Collection-vs-Object", side{"*Collection", func() ap.Item { return &ap.Collection{ID: ap.IRI(base), Type: ap.CollectionType, TotalItems: 3, Summary: ap.NaturalLanguageValues{{Ref: "-", Value: ap.Content("keep")}}} }}, side{"*Object(Collection)", obj(base, "Collection")}},
-		{"Person-vs-Object", side{"*Actor(Person)", func() ap.Item { return &ap.Actor{ID: ap.IRI(base), Type: ap.PersonType, Inbox: ap.IRI(base + "/inbox"), Summary: ap.NaturalLanguageValues{{Ref: "-", Value: ap.Content("keep")}}} }}, side{"*Object(Person)", obj(base, "Person")}},
+		{"Collection-vs-Object", side{"*Collection", func() ap.Item {
+			return &ap.Collection{ID: ap.IRI(base), Type: ap.CollectionType, TotalItems: 3, Summary: ap.NaturalLanguageValues{{Ref: "-", Value: ap.Content("keep")}}}
+		}}, side{"*Object(Collection)", obj(base, "Collection")}},
+		{"Person-vs-Object", side{"*Actor(Person)", func() ap.Item {
+			return &ap.Actor{ID: ap.IRI(base), Type: ap.PersonType, Inbox: ap.IRI(base + "/inbox"), Summary: ap.NaturalLanguageValues{{Ref: "-", Value: ap.Content("keep")}}}
+		}}, side{"*Object(Person)", obj(base, "Person")}},
 		{"Object-vs-Actor", side{"*Object(Person)", obj(base, "Person")}, side{"*Actor(Person)", func() ap.Item { return &ap.Actor{ID: ap.IRI(base), Type: ap.PersonType} }}},
-		{"OrderedCollectionPage-vs-Collection", side{"*OrderedCollectionPage", func() ap.Item { return &ap.OrderedCollectionPage{ID: ap.IRI(base), Type: ap.OrderedCollectionPageType, Summary: ap.NaturalLanguageValues{{Ref: "-", Value: ap.Content("keep")}}} }},
+		{"OrderedCollectionPage-vs-Collection", side{"*OrderedCollectionPage", func() ap.Item {
+			return &ap.OrderedCollectionPage{ID: ap.IRI(base), Type: ap.OrderedCollectionPageType, Summary: ap.NaturalLanguageValues{{Ref: "-", Value: ap.Content("keep")}}}
+		}},
 			side{"*Collection(OrderedCollectionPage)", func() ap.Item { return &ap.Collection{ID: ap.IRI(base), Type: ap.OrderedCollectionPageType} }}},
 	}
 	for _, m := range mismatch {
